@@ -2,6 +2,7 @@
 
 UNITS = {
     "dateroll": {"rlimit": 20},
+    "dual_core": {"rlimit": 30},
 }
 
 COMMON_ASSUMPTIONS = [
